@@ -140,7 +140,9 @@ def _c09(args):
 
     prog = btgen.prog_by_family(seed, i, "nested09")
     out = {"i": i, "prog": prog, "algos": [a[0] for a in prog["tree"]["algos"]]}
-    rn = B.run_program(prog, record=False, seed=seed * 131 + i)
+    lazy = (seed + i) % 2 == 0   # children named by strings, or Security objects built up front
+    out["lazy"] = lazy
+    rn = B.run_program(prog, record=False, seed=seed * 131 + i, lazy=lazy)
     out["exc"] = rn["exc"]
     if rn["exc"] != "none":
         out["msg"] = rn["msg"]
@@ -156,7 +158,7 @@ def _c09(args):
         sp = dict(prog)
         sp["tree"] = d
         sp["bt"] = dict(prog["bt"], capital=1000000)
-        rs = B.run_program(sp, record=False, seed=seed * 131 + i)
+        rs = B.run_program(sp, record=False, seed=seed * 131 + i, lazy=lazy)
         if rs["exc"] != "none":
             out.setdefault("standalone_exc", []).append((">".join(pth), rs["exc"], rs["msg"][:80]))
             continue
